@@ -23,7 +23,7 @@ NOT_DECIDED = ["equality of the rebuilt object with the original (needs executio
 
 
 def run(ctx, ss):
-    for r, f in (("C11.1", c11_1), ("C11.2", c11_2), ("C11.3", c11_3), ("C11.4", c11_4), ("C11.5", c11_5), ("C11.6", c11_6), ("C11.7", c11_7)):
+    for r, f in (("C11.1", c11_1), ("C11.2", c11_2), ("C11.3", c11_3), ("C11.4", c11_4), ("C11.5", c11_5), ("C11.6", c11_6), ("C11.7", c11_7), ("C11.7", c11_8)):
         ctx.guard(r, f, ss)
 
 
@@ -160,6 +160,15 @@ def c11_2(ctx, ss):
     (ctx.holds if ok_src and ok_ret else ctx.violation)("C11.2", ckey(ff, None, "frame"), where(ff, ff.node),
                                                         "works on the fs list of self.decays[mother].to_dict(), returned as {mother: [mode]}" if ok_src and ok_ret
                                                         else f"frame: list `{txt(lst)[:60]}`, return `{txt(rets[0].value)[:60] if rets else None}`")
+    # the mode dictionary is put into the result exactly once
+    rn = rets[0].value.values[0] if ok_ret else None
+    okapp = False
+    if isinstance(rn, ast.Name):
+        sites = builder_sites(ff, flow, rn.id)
+        okapp = len(sites) == 1 and sites[0][1] == "append" and flow.text(sites[0][2][0]) == "self.decays[mother].to_dict()" \
+            and flow.cfg.must_pass({flow.cfg.node_of(sites[0][0])})
+    (ctx.holds if okapp else ctx.violation)("C11.2", ckey(ff, None, "mode-kept"), where(ff, ff.node),
+                                            "the (expanded) mode dictionary is the single entry of the mother's list" if okapp else "the mode dictionary is not put into the result exactly once")
     top, tflow = fn(ss, DECAY, "DecayChain.to_dict")
     r = returns(top)
     okt = len(r) == 1 and txt(r[0].value) == "recursively_replace(self.mother)"
@@ -176,12 +185,45 @@ def c11_3(ctx, ss):
         conds = [(txt(flow.expand(e)), pol) for kind, e, pol in guards.path_conditions(ff.node, r) if kind == "if"]
         if len(conds) == 1 and conds[0][1] and conds[0][0] in ("next(iter(dc_dict.keys())) in decay_modes", "next(iter(dc_dict)) in decay_modes"):
             bad = r
+    # the only acceptable rejection of a repeated mother: it was seen AND its mode differs
+    cmp_ok = False
+    for r in raises:
+        conds = [(flow.expand(e), pol) for kind, e, pol in guards.path_conditions(ff.node, r) if kind == "if"]
+        for e, pol in conds:
+            t = txt(e)
+            if pol and " in decay_modes" in t and "not in decay_modes" not in t and isinstance(e, ast.BoolOp) and isinstance(e.op, ast.And):
+                neq = [x for x in e.values if isinstance(x, ast.Compare) and len(x.ops) == 1 and isinstance(x.ops[0], ast.NotEq)
+                       and "decay_modes[" in txt(x) and ("from_dict(" in txt(x) or ".to_dict()" in txt(x))]
+                mem = [x for x in e.values if isinstance(x, ast.Compare) and isinstance(x.ops[0], ast.In)]
+                cmp_ok = cmp_ok or (len(neq) == 1 and len(mem) == 1)
+    repeat_raises = [r for r in raises if any("decay_modes" in txt(e) for kind, e, pol in guards.path_conditions(ff.node, r) if kind == "if")]
+    if bad is None and repeat_raises and not cmp_ok:
+        ctx.violation("C11.3", key, where(ff, repeat_raises[0]),
+                      "a mother seen again is refused under a condition other than 'already collected AND its decay mode differs': identical repeated sub-decays "
+                      "(which DecayChain.to_dict emits) are rejected, or conflicting ones accepted")
+        return
     if bad is not None:
         ctx.violation("C11.3", key, where(ff, bad),
                       "the dictionary reader raises whenever a mother key was already seen, but DecayChain.to_dict emits the same key once per position "
                       "of a repeated decaying daughter (D0 -> pi0 pi0, pi0 -> gamma gamma): such a chain cannot be rebuilt from its own dictionary", 2)
     else:
         ctx.holds("C11.3", key, where(ff, ff.node), "a repeated mother key is not rejected unconditionally", len(raises) + 1)
+
+
+def c11_8(ctx, ss):
+    ff, flow = fn(ss, DECAY, "_has_no_subdecay")
+    r = returns(ff)
+    ok = len(r) == 1 and txt(r[0].value) in ("all((isinstance(p, str) for p in ds))", "all(isinstance(p, str) for p in ds)", "not any((isinstance(p, dict) for p in ds))")
+    (ctx.holds if ok else ctx.violation)("C11.7", ckey(ff, None, "classify"), where(ff, ff.node),
+                                          "a final state has no sub-decay iff ALL its entries are names" if ok else f"_has_no_subdecay is `{txt(r[0].value) if r else None}`")
+    ff, flow = fn(ss, DECAY, "DecayMode.to_dict")
+    fixes = [s_ for s_ in pf.iter_stmts(ff.node.body) if isinstance(s_, ast.Assign) and isinstance(s_.targets[0], ast.Subscript) and txt(s_.targets[0].slice) == "'model_params'"]
+    for s_ in fixes:
+        conds = [(txt(e), pol) for kind, e, pol in guards.path_conditions(ff.node, s_) if kind == "if"]
+        import re as _re
+        ok = len(conds) == 1 and conds[0][1] and bool(_re.fullmatch(r"\w+\['model_params'\] is None", conds[0][0])) and isinstance(s_.value, ast.Constant) and s_.value.value == ""
+        (ctx.holds if ok else ctx.violation)("C11.1", ckey(ff, None, "params-none"), where(ff, s_),
+                                              "only a missing (None) parameter list is normalised to ''" if ok else f"model_params is overwritten under {conds}")
 
 
 def c11_4(ctx, ss):
